@@ -244,7 +244,17 @@ def _observe(ev, v, facts=None):
     return v
 
 
+def _two_nodes():
+    """two public nodes that print the same path (same depth, child number, no parent) but hold different keys"""
+    n1 = pub_node()[0]
+    f1 = T.obj_fields(n1)
+    n2 = node_term(PUB, T.sec(S('P_other', type='point'), T.TRUE), chain=f1['chain_code'], depth=f1['depth'], index=f1['index'],
+                   testnet=f1['testnet'])
+    return [n1, n2]
+
+
 ARG_RECIPES = {
+    'node': _two_nodes,
     'index': lambda: [S('hix', type='int')],
     'version': lambda: [None, S('ver', type='int')],
     'compressed': lambda: [T.TRUE, T.FALSE],
@@ -267,6 +277,9 @@ def _api_calls(p, clsqual):
                 continue
             if fi.kind in ('classmethod', 'staticmethod'):
                 continue
+            if any(isinstance(n_, (ast.Yield, ast.YieldFrom)) for n_ in ast.walk(fi.node)):
+                skipped.append(name + ' (generator)')
+                continue
             params = fi.params[1:]
             if not all(q in ARG_RECIPES or q in fi.defaults for q in params):
                 skipped.append(name)
@@ -282,6 +295,39 @@ def _api_calls(p, clsqual):
     return calls, skipped
 
 
+_HIST_CACHE = {}
+
+
+def history_verdict(p, clsqual):
+    """(verdict, detail) of the semantic history check for one class family, for callers outside C13 (the purity
+    precondition): True = holds on both back ends, False = violated, None = not covered / undecided."""
+    key = id(p)
+    if key not in _HIST_CACHE:
+        from ..report import Context
+        sub = Context('C13', 'quick', p, 0)
+        res = check_history(sub, 'C13.HISTORY')
+        details = {}
+        for ob in sub.obligations:
+            if ob.verdict == 'VIOLATED' and ob.details:
+                details.setdefault(ob.construct, ob.details[0])
+            elif ob.verdict == 'UNDECIDED':
+                details.setdefault(ob.construct, 'undecided: ' + '; '.join(ob.details)[:200])
+        _HIST_CACHE.clear()
+        _HIST_CACHE[key] = (res, details, {o.construct: o.verdict for o in sub.obligations})
+    res, details, verdicts = _HIST_CACHE[key]
+    ci = p.classes.get(clsqual)
+    fam = {c.qual for c in ([ci] + list(ci.mro()) + list(ci.all_subclasses()))} if ci is not None else {clsqual}
+    rel = [(cq, be, v) for (cq, be), v in res.items() if cq in fam]
+    if not rel:
+        return None, 'no semantic history check covers %s' % clsqual
+    names = {cq.split('.')[-1] for cq, _, _ in rel}
+    if any(verdicts.get(n) == 'UNDECIDED' for n in names):
+        return None, next((d for n, d in details.items() if n in names), 'undecided')
+    if all(v for _, _, v in rel):
+        return True, ''
+    return False, next((d for n, d in details.items() if n in names), 'history check failed')
+
+
 def check_history(ctx, rule):
     """Semantic history-freedom: for a symbolic object of each key / node class, every API call evaluated on the object
     as any *state-changing* API call left it must give the same observation as on the fresh object."""
@@ -289,8 +335,10 @@ def check_history(ctx, rule):
     verdict = {}
     H_ = 2 ** 31
     for be in BACKENDS:
+        BWQ = PKG + '.base_wallet.BaseWallet'
         for clsqual, mk in ((PUB, lambda: pub_node()[0]), (PRV, lambda: prv_node('32')[0]),
-                            (PUBKEY, lambda: mk_pub(p, be, S('P', type='point'))), (PRIVKEY, lambda: mk_priv(p, be, K_VALID))):
+                            (PUBKEY, lambda: mk_pub(p, be, S('P', type='point'))), (PRIVKEY, lambda: mk_priv(p, be, K_VALID)),
+                            (BWQ, lambda: mk_wallet(p, be, pub_node(tagname='w')[0], S('testnet', type='bool')))):
             ci = p.get_class(clsqual)
             with ctx.obligation(rule, clsqual.split('.')[-1], be, '%s:%d' % (ci.module.relpath, ci.node.lineno)) as ob:
                 obj = mk()
